@@ -1507,7 +1507,10 @@ class _Normalise(ast.NodeTransformer):
         else:
             return None
         tname = tgt.id if isinstance(tgt, ast.Name) else _dotted(tgt)
-        if not (tname and isinstance(tgt, (ast.Name, ast.Attribute)) and isinstance(val, ast.List) and not val.elts):
+        is_list = isinstance(val, ast.List) and not val.elts
+        # `s = set()` + `for ...: s.add(E)` is the set comprehension the same way
+        is_set = isinstance(val, ast.Call) and _dotted(val.func) == "set" and not val.args and not val.keywords
+        if not (tname and isinstance(tgt, (ast.Name, ast.Attribute)) and (is_list or is_set)):
             return None
         body = nxt.body
         ifs = []
@@ -1517,7 +1520,7 @@ class _Normalise(ast.NodeTransformer):
         if len(body) != 1 or not isinstance(body[0], ast.Expr):
             return None
         c = body[0].value
-        if not (isinstance(c, ast.Call) and isinstance(c.func, ast.Attribute) and c.func.attr == "append" and _dotted(c.func.value) == tname and len(c.args) == 1 and not c.keywords):
+        if not (isinstance(c, ast.Call) and isinstance(c.func, ast.Attribute) and c.func.attr == ("append" if is_list else "add") and _dotted(c.func.value) == tname and len(c.args) == 1 and not c.keywords):
             return None
         # the element / conditions must not mention the list being built
         for e in [c.args[0], nxt.iter] + ifs:
@@ -1525,7 +1528,7 @@ class _Normalise(ast.NodeTransformer):
                 return None
         if any(isinstance(x, (ast.Await, ast.Yield, ast.YieldFrom)) for e in [c.args[0]] + ifs for x in ast.walk(e)):
             return None
-        comp = ast.ListComp(elt=c.args[0], generators=[ast.comprehension(target=nxt.target, iter=nxt.iter, ifs=ifs, is_async=0)])
+        comp = (ast.ListComp if is_list else ast.SetComp)(elt=c.args[0], generators=[ast.comprehension(target=nxt.target, iter=nxt.iter, ifs=ifs, is_async=0)])
         new_t = copy.deepcopy(tgt)
         new_t.ctx = ast.Store()
         new = ast.Assign(targets=[new_t], value=comp)
@@ -1925,6 +1928,18 @@ class _Walrus(ast.NodeTransformer):
                 elif isinstance(st, (ast.Expr, ast.Assign, ast.Return, ast.AugAssign, ast.AnnAssign)) and getattr(st, "value", None) is not None:
                     expr = st.value
                 w = self._first_walrus(expr) if expr is not None else None
+                if w is None and expr is not None:
+                    # an assignment expression whose value is pure arithmetic over names / attributes / constants can be
+                    # evaluated early wherever it sits, provided its target is not read earlier in the same statement
+                    for cand in ast.walk(expr):
+                        if isinstance(cand, ast.NamedExpr) and isinstance(cand.target, ast.Name) and _pure_arith(cand.value) and not any(isinstance(y, (ast.Lambda, ast.ListComp, ast.SetComp, ast.DictComp, ast.GeneratorExp)) and any(z is cand for z in ast.walk(y)) for y in ast.walk(expr)):
+                            names_in_value = {z.id for z in ast.walk(cand.value) if isinstance(z, ast.Name)}
+                            other_stores = [z for z in ast.walk(expr) if isinstance(z, ast.NamedExpr) and z is not cand and isinstance(z.target, ast.Name) and (z.target.id == cand.target.id or z.target.id in names_in_value)]
+                            pos = (cand.lineno, cand.col_offset)
+                            early_reads = [z for z in ast.walk(expr) if isinstance(z, ast.Name) and z.id == cand.target.id and isinstance(z.ctx, ast.Load) and (z.lineno, z.col_offset) < pos]
+                            if not other_stores and not early_reads:
+                                w = cand
+                                break
                 if w is None or not isinstance(w.target, ast.Name):
                     break
                 a = ast.Assign(targets=[ast.Name(id=w.target.id, ctx=ast.Store())], value=w.value)
